@@ -4,6 +4,7 @@ import Driver.Json
 import Driver.Sym
 import Driver.Conv
 import Driver.CompileDrv
+import Driver.SemDrv
 open Driver
 
 /-- a trailing field starting with '#' carries human-readable context and is ignored -/
@@ -14,6 +15,7 @@ def stripComment (fs : List String) : List String :=
 
 def dispatch (line : String) : String :=
   match stripComment (line.splitOn "\t") with
+  | "noop" :: _ => "ok"
   | "ops" :: args => handleOps args
   | "vm" :: args => handleVM args
   | "json" :: args => handleJson args
@@ -21,6 +23,7 @@ def dispatch (line : String) : String :=
   | "disable" :: args => handleDisable args
   | "conv" :: args => handleConv args
   | "compile" :: args => handleCompile args
+  | "sem" :: args => handleSem args
   | _ => "bad-op"
 
 partial def loop (h : IO.FS.Stream) (out : IO.FS.Stream) : IO Unit := do
